@@ -2,6 +2,7 @@
 # Must-fail corpus: every patch selftest/mutants/<Cnn>-*.patch applied to /repo must make ./check <Cnn> fail (exit 1).
 # usage: selftest.sh [pattern]
 cd /verif
+if [ -n "$(git -C /repo status --porcelain)" ]; then echo "/repo has uncommitted changes: commit them first"; exit 2; fi
 pat=${1:-}
 fail=0
 for p in selftest/mutants/*${pat}*.patch; do
